@@ -394,6 +394,9 @@ func (x *Exec) loopEnter(st *State, fr *Frame, li *loopInfo, from *ssa.BasicBloc
 				if it, ok := fr.regs[nx.Iter].(*RangeIter); ok && it.Seen != nil {
 					ks := x.sortOf(it.MapT.Key())
 					st.cells[it.Seen] = Term{x.declare(st, "seen", "(Array "+ks+" Bool)"), nil}
+					if it.SeenSum != nil {
+						st.cells[it.SeenSum] = Term{x.declare(st, "seensum", x.sortOf(it.MapT.Elem())), it.MapT.Elem()}
+					}
 				}
 			}
 		}
